@@ -268,6 +268,19 @@ def sameRes (app : App) (a b : LoadRes) : Bool :=
   | .undefined, .undefined => true
   | _, _ => false
 
+/-- `App.load` together with "Kahn's algorithm output every message of the file" (what the harness observes by
+    counting `on_dispatch`): the flag is only meaningful for a load that succeeds -/
+def loadApplied (app : App) (ls : List Line) (s : State) : LoadRes × Bool :=
+  match dependees app.apropos scanFuel (ls.map (·.addr)) with
+  | none => (.undefined, true)
+  | some deps =>
+    match kahn deps with
+    | none => (.undefined, true)
+    | some order =>
+      match app.applyOrder ls order s with
+      | none => (.fail, true)
+      | some s' => (.ok s' ls.length, order.length == ls.length)
+
 /-! ### Bool versions of the theorems' hypotheses, evaluated per application (mode `wf`) -/
 def coversFor (app : App) (anc : List Nat) (addr : Path) : Bool :=
   let refs : List Path := refsOf app.apropos addr
@@ -389,12 +402,15 @@ def step (line : String) : String :=
         | some f => showResF app (app.loadFile f app.init)
       else if mode = "perm" then
         let n := lines.length
-        let r0 := app.loadFile file app.init
+        -- (the file of a `perm` case has two good header lines and scannable messages: `loadFile` is `load`)
+        let (r0, a0) := loadApplied app lines app.init
         let perms := if n ≤ 6 then permsLex (n + 1) (List.range n)
                      else randomPerms (x2.toNat?.getD 0) n (x1.toNat?.getD 0)
-        let bad := perms.find? fun p =>
-          let ls := p.filterMap fun i => lines[i]?
-          !sameRes app (app.loadFile { file with body := ls.map some } app.init) r0
+        let results := perms.map fun p => loadApplied app (p.filterMap fun i => lines[i]?) app.init
+        let badIdx := results.findIdx fun r => !sameRes app r.1 r0
+        let bad := if badIdx < perms.length then perms[badIdx]? else none
+        let tried := results.take (badIdx + 1)
+        let allApplied := a0 && tried.all fun r => r.2
         let tail := match bad with
           | none => s!"SAME 1"
           | some p =>
@@ -404,7 +420,7 @@ def step (line : String) : String :=
         let cnt := match bad with
           | none => perms.length
           | some p => perms.idxOf p + 1
-        s!"N {n} P {cnt} {showResF app r0} {tail}"
+        s!"N {n} P {cnt} {showResF app r0} A {if allApplied then 1 else 0} {tail}"
       else "bad-op"
     | _, _ => "bad-op"
   | _ => "bad-op"
